@@ -64,8 +64,17 @@ C19, one each of C12 and C03). A twelfth round of twelve (`Z01-r12` … `Z12-r12
 gave each agent one or two properties and a one-line list of all 154 changes
 seeded so far, asking for a mechanism, a code location *and* a triggering input
 that differ from every one of them; a thirteenth round (`Y01-r13` … `Y12-r13`)
-repeated that with the list grown to 166 and the properties paired differently.
-Nothing from `/verif` was ever
+repeated that with the list grown to 166 and the properties paired differently,
+and a fourteenth (`X01-r14` … `X12-r14`, list of 178) once more. Two changes of the
+fourteenth round were not kept because their triggers lie outside the inputs for
+which the properties hold on the unchanged tree: `X02` needs a third-party type
+whose own `%v` rendering differs from its `Error()` text (the library itself
+renders such a cause through its `Format` method, so texts composed above it
+already differ from `Error()`-based composition), `X05` needs redaction-marker
+runes inside messages rendered with the plain verbs (the library replaces them by
+`?` in several plain renderings, so `%v` is not `Error()` there to begin with;
+DESIGN §2.2). Both were tried as new workload classes first; the alarms they raise
+on the unchanged tree are why they were withdrawn. Nothing from `/verif` was ever
 shown. Each was **confirmed independently** before being kept
 (`tools/confirm_mutant.sh`): the patch applies to the clean tree, the library
 builds with and without the `verif` tag, the demonstration passes without the
@@ -84,7 +93,7 @@ suite is thin.
 Outcome: **every one of the {n} changes is reported as a VIOLATION by the quick
 tier of the check of the property it was written against** (seed 1). About a
 quarter of them were *missed* by the version of the monitor that existed when
-they arrived (round 1: 3, round 2: 8, round 3: 7, round 4: 2, round 5: 3, round 6: 4, round 7: 7, round 8: 4, round 9: 6, round 10: 2, round 11: 1, round 12: 5, round 13: 6, plus two
+they arrived (round 1: 3, round 2: 8, round 3: 7, round 4: 2, round 5: 3, round 6: 4, round 7: 7, round 8: 4, round 9: 6, round 10: 2, round 11: 1, round 12: 5, round 13: 6, round 14: 4, plus two
 regression found by re-running every stored change against its own check after
 the harness had changed — `tools/diag.sh`: `K07-r5` and `C20-r2` had been caught
 through coincidences of the generator; the tool also prints how many violation
@@ -143,7 +152,9 @@ of the API.
   methods and the standard library's walk; `Unwrap()` must agree with `Cause()`
   and with the visible cause (`C07-r2`); the `newfew` kind, `Newf("… %v … %w",
   hidden, cause)`: the `%w` operand is not the first error argument (`C07-r3`).
-* **C08** — one case in ten ends its main chain in the sometimes-leaf-sometimes-wrapper
+* **C08** — the reference pool's perturbations got "one type-key extension
+  emptied" (`errors.Domain("")`, an empty key marker) (`X08-r14`); one case in ten
+  ends its main chain in the sometimes-leaf-sometimes-wrapper
   type with a text `a: b`, and the reference pool gets the same tree with that leaf
   replaced by wrapper[`a`](leaf[`b`]): equal texts, and every layer's type chain is
   the candidate's strictly extended (`C08`, whose catch rested on 2 observations);
@@ -239,21 +250,25 @@ of the API.
   before anything in that process has called into the library for reading, and the
   reference is computed afterwards — process-wide state that is filled on first
   use is then raced for by the very first calls (`Z11-r12`; 16 such cases per
-  quick run, 16 × more in the thorough tier through its larger case count per
-  child).
+  quick run). The kind `protofailleaf`, a leaf that announces a protobuf payload
+  which cannot be marshalled (`X11-r14`); the library's warning sink is redirected
+  into a counter.
 * **C19** — a decoded stage: the accessor model must also hold on the error
   decoded at a knowing process (`C19-r2`); the slices returned by
   `GetTelemetryKeys` / `GetAllHints` / `GetAllDetails` / `GetAllIssueLinks` are
   scribbled on and the error observed again (`K02-r5`); third-party leaf and
   wrapper types that implement `ErrorHinter` / `ErrorDetailer` themselves
   (`hdleaf`, `hdwrap`, registered so that they survive the network) (`G03-r6`);
+  a word with redaction-marker runes in the string pool (`X12-r14`);
   one case in ten has two gRPC code layers, the outer one often `Unknown`, the
   "nothing attached" default; C20 does the same (`C20-r2`, regression), and in one
   case in ten lengthens strings to several hundred bytes of multi-byte runes
   (`C20-r3`, whose catch rested on 4 observations). C20's in-memory set-up got a
   *forwarding service* (server interceptor → plain client → server interceptor):
   what its intercepting client receives is compared with what the client next to
-  the origin receives (`Y12-r13`).
+  the origin receives (`Y12-r13`). The two interceptors are also composed as plain
+  functions, with the server-side context live, cancelled or past its deadline
+  when the handler returns (`X10-r14`).
 
 Independently of the seeded changes, `tools/coverage.sh` measures which statements
 of the library the monitors' workloads execute (the harness built with
